@@ -86,7 +86,9 @@ var fields = map[LT]map[string]fld{
 		"MatchPrice": {"%s.price", "Dec"}, "MatchedAmount": {"%s.total", "Int"}, "MatchedBids": {"%s.matched", "List Bid"},
 		"MatchResultByBidder": {"%s.byBidder", "Map Acc BRes"},
 	},
-	"BRes": {"PayingAmount": {"%s.pay", "Int"}, "MatchedAmount": {"%s.matched", "Int"}},
+	"BRes":   {"PayingAmount": {"%s.pay", "Int"}, "MatchedAmount": {"%s.matched", "Int"}},
+	"IOC":    {"bidder": {"%s.bidder", "Acc"}, "input": {"%s.input", "BankIn"}, "outputs": {"%s.outputs", "List BankOut"}},
+	"BankIn": {"Coins": {"%s.coins", "Coin"}, "Address": {"%s.addr", "Addr"}},
 	"MInfoG": {"MatchedLen": {"%s.matchedLen", "Int"}, "MatchedPrice": {"%s.price", "Dec"}, "TotalMatchedAmount": {"%s.total", "Int"},
 		"AllocationMap": {"%s.alloc", "Map Acc Int"}, "ReservedMatchedMap": {"%s.reservedMatched", "Map Acc Int"}, "RefundMap": {"%s.refund", "Map Acc Int"}},
 }
@@ -106,6 +108,9 @@ var setters = map[string]fld{
 	"BRes.PayingAmount":            {"{ %1 with pay := %2 }", "Int"},
 	"MInfoG.AllocationMap":         {"{ %1 with alloc := %2 }", "Map Acc Int"},
 	"MInfoG.TotalMatchedAmount":    {"{ %1 with total := %2 }", "Int"},
+	"IOC.input":                    {"{ %1 with input := %2 }", "BankIn"},
+	"IOC.outputs":                  {"{ %1 with outputs := %2 }", "List BankOut"},
+	"BankIn.Coins":                 {"{ %1 with coins := %2 }", "Coin"},
 	"MInfoG.MatchedLen":            {"{ %1 with matchedLen := %2 }", "Int"},
 	"MInfoG.MatchedPrice":          {"{ %1 with price := %2 }", "Dec"},
 	"MInfoG.ReservedMatchedMap":    {"{ %1 with reservedMatched := %2 }", "Map Acc Int"},
@@ -156,6 +161,8 @@ func init() {
 	methods["Coin.IsZero"] = fnSpec{L: "decide (%1.amt = 0)", T: "Bool", Arity: 1}
 	methods["Coin.Sub"] = fnSpec{L: "(Coin.mk %1.denom (%1.amt - %2.amt))", T: "Coin", Arity: 2, Args: []LT{"Coin", "Coin"},
 		Note: "Coin.Sub panics on a negative result or different denominations (handled by the model's mkCoins)"}
+	methods["Coin.Add"] = fnSpec{L: "(Coin.mk %1.denom (%1.amt + %2.amt))", T: "Coin", Arity: 2, Args: []LT{"Coin", "Coin"},
+		Note: "Coins.Add of two one-coin sets of the same denomination"}
 	methods["Coin.SubAmount"] = fnSpec{L: "(Coin.mk %1.denom (%1.amt - %2))", T: "Coin", Arity: 2, Args: []LT{"Coin", "Int"}}
 	methods["Coin.AddAmount"] = fnSpec{L: "(Coin.mk %1.denom (%1.amt + %2))", T: "Coin", Arity: 2, Args: []LT{"Coin", "Int"}}
 
@@ -223,17 +230,20 @@ var funcs = map[string]fnSpec{
 		Args: []LT{"Int", "AType", "Acc", "Addr", "Addr", "Dec", "Coin", "Denom", "Addr", "List VS", "Time", "List Time", "Status"}},
 	"types.NewFixedPriceAuction": {L: "(Go.newFixedPriceAuction %1 %2)", T: "Auction", Arity: 2, Args: []LT{"Auction", "Coin"}},
 	"types.NewBatchAuction":      {L: "(Go.newBatchAuction %1 %2 %3 %4 %5)", T: "Auction", Arity: 5, Args: []LT{"Auction", "Dec", "Dec", "Int", "Dec"}},
+	"banktypes.NewOutput":        {L: "(BankOut.mk %1 %2)", T: "BankOut", Arity: 2, Args: []LT{"Acc", "Coin"}},
+	"banktypes.NewInput":         {L: "(BankIn.mk %1 %2)", T: "BankIn", Arity: 2, Args: []LT{"Addr", "Coin"}},
 	"types.NewAllowedBidder":     {L: "(AllowedArg.mk (%1).toNat %2 %3)", T: "AllowedArg", Arity: 3, Args: []LT{"Int", "Acc", "Int"}},
 }
 
 var zeroValues = map[string]V{
+	"[]string": {"([] : List Acc)", "List Acc"},
 	"math.Int": {"(0 : Int)", "Int"}, // nil Int; every use in the translated code assigns before reading
 	"int64":    {"(0 : Int)", "Int"},
 	"bool":     {"false", "Bool"},
 }
 
 var zeroByLean = map[LT]string{
-	"Int": "(0 : Int)", "Dec": "(0 : Dec)", "Bool": "false", "BRes": "(default : BRes)", "MState": "(default : MState)",
+	"Int": "(0 : Int)", "Dec": "(0 : Dec)", "Bool": "false", "BRes": "(default : BRes)", "MState": "(default : MState)", "IOC": "(default : IOC)",
 	"List Bid": "[]", "List Dec": "[]",
 }
 
@@ -248,6 +258,7 @@ var composites = map[string]compositeSpec{
 	"VestingQueue": {T: "VQ", Fields: map[string]string{"AuctionId": "auction := (%s).toNat", "Auctioneer": "auctioneer := %s",
 		"PayingCoin": "denom := (%s).denom, amt := (%s).amt", "ReleaseTime": "release := %s", "Released": "released := %s"}},
 	"BidderMatchResult": {T: "BRes", Fields: map[string]string{"PayingAmount": "pay := %s", "MatchedAmount": "matched := %s"}},
+	"inOutCoins":        {T: "IOC", Fields: map[string]string{"bidder": "bidder := %s", "outputs": "outputs := %s", "input": "input := %s"}},
 	"LegacyDec":         {T: "Dec", Fields: map[string]string{}},
 	"MatchResult": {T: "MState", Fields: map[string]string{"MatchPrice": "price := %s", "MatchedAmount": "total := %s",
 		"MatchedBids": "matched := %s", "MatchResultByBidder": "byBidder := %s"}},
@@ -258,7 +269,7 @@ var composites = map[string]compositeSpec{
 var ignoredCalls = map[string]bool{}
 
 // goTypeNames: Go type expressions (as rendered) -> Lean types, for map literals
-var goTypeNames = map[string]LT{"string": "Acc", "math.Int": "Int", "*BidderMatchResult": "BRes", "*types.BidderMatchResult": "BRes", "uint64": "Int", "bool": "Bool"}
+var goTypeNames = map[string]LT{"inOutCoins": "IOC", "string": "Acc", "math.Int": "Int", "*BidderMatchResult": "BRes", "*types.BidderMatchResult": "BRes", "uint64": "Int", "bool": "Bool"}
 
 var mutatorNames = map[string]bool{"SetMatched": true, "SetReleased": true, "SetStatus": true, "SetEndTimes": true}
 
@@ -279,7 +290,7 @@ var renderers = map[LT]string{
 	"Denom": "GVal.nat %s", "Acc": "GVal.nat %s", "Coin": "GVal.coin %s", "Bid": "GVal.bid %s",
 	"Addr": "GVal.addr %s", "Status": "GVal.status %s", "BidType": "GVal.bidType %s",
 	"Auction": "GVal.auction %s", "VQ": "GVal.vq %s", "List Time": "GVal.ints %s",
-	"List VS": "GVal.sched %s", "MInfo": "GVal.minfo %s", "Params": "GVal.params %s", "List AllowedArg": "GVal.allowed %s", "AllowedArg": "GVal.allowed1 %s",
+	"List VS": "GVal.sched %s", "BankIn": "GVal.bankIn %s", "List BankOut": "GVal.bankOuts %s", "Map Acc Int": "GVal.amap %s", "MInfo": "GVal.minfo %s", "Params": "GVal.params %s", "List AllowedArg": "GVal.allowed %s", "AllowedArg": "GVal.allowed1 %s",
 }
 
 // aliasSpec: a Go variable that is a POINTER obtained from / stored into a map entry
